@@ -287,6 +287,7 @@ pub mod harness {
                     let (len0, ev0, closed0) = (ap.0.cell.borrow().connections.len(), event_len(), [is_closed(0), is_closed(1), is_closed(2), is_closed(3)]);
                     let mut inflight: JoinSet<()> = JoinSet::new();
                     block_on(inbound_request_handler_start_tail(&ap, &conns[k], reason, &mut inflight));
+                    assert!(ap.0.acquisitions.get() == before + 1, "a handler exit must look at and update the active-peer set in ONE critical section (check-then-act across two acquisitions races with a replacement)");
                     if !stored_is_k {
                         // "the end of an older, replaced connection never removes or disturbs its replacement"
                         assert!(ap.0.cell.borrow().connections.len() == len0 && event_len() == ev0, "the exit of a connection that is not the registered one changed the listing or emitted an event");
